@@ -12,6 +12,13 @@
 // durable heights (engine/chanmc reest.go, Params.ReestMonitor): at every cut, in
 // the live-object probe, and - read-only - in EVERY distinct state for both parties
 // ("what would this node send if it restarted here", live object and fresh handle).
+// "Rejects any secret not consistent with the earlier ones" at the channel level:
+// wherever a revoke_and_ack is about to be delivered (live or retransmitted), the
+// terminal action byz>X hands X's live object a lattice of wrong revocations
+// (negated / +-1 / doubled scalar, all 256 single-bit flips, the secrets of the
+// previous and the next two heights, zero, ones; honest / negated / repeated next
+// point) which must all be refused without any state change, then the honest one,
+// which must be accepted and stored exactly (engine/chanmc byz.go, Params.ByzRevocation).
 // The reestablish family crosses all seven channel types with every cut point of a
 // full dance in both directions (durable local height equal to / one ahead of / one
 // behind the remote height) with the data-loss-protect fields on, so that the peer's
@@ -57,13 +64,13 @@ func TestC06Release(t *testing.T) {
 	// failed HTLC interleaved with a fee update; the two-reconnect spaces below
 	// carry the same monitor).
 	for i, typ := range chanmc.AllTypes {
-		sp = append(sp, chanmc.Space{Dev: -1, OnState: reestHere, P: chanmc.Params{Type: typ, OpenerB: i%2 == 1, MaxCuts: 1, ReestMonitor: true, ProbeLiveReest: true, Script: []chanmc.Intent{
+		sp = append(sp, chanmc.Space{Dev: -1, OnState: reestHere, P: chanmc.Params{Type: typ, OpenerB: i%2 == 1, MaxCuts: 1, ReestMonitor: true, ProbeLiveReest: true, ByzRevocation: true, Script: []chanmc.Intent{
 			{By: (i / 2) % 2, Amt: 50_000_000, Fate: "settle"},
 		}}})
 	}
 	if run.Thorough() {
 		for i, typ := range chanmc.AllTypes {
-			sp = append(sp, chanmc.Space{Dev: -1, OnState: reestHere, P: chanmc.Params{Type: typ, OpenerB: i%2 == 0, MaxCuts: 1, ReestMonitor: true, ProbeLiveReest: true, Fees: []int64{7000}, Script: []chanmc.Intent{
+			sp = append(sp, chanmc.Space{Dev: -1, OnState: reestHere, P: chanmc.Params{Type: typ, OpenerB: i%2 == 0, MaxCuts: 1, ReestMonitor: true, ProbeLiveReest: true, ByzRevocation: true, Fees: []int64{7000}, Script: []chanmc.Intent{
 				{By: 1 - (i/2)%2, Amt: 50_000_000, Fate: "fail"},
 			}}})
 		}
@@ -86,12 +93,23 @@ func TestC06Release(t *testing.T) {
 		}}})
 	}
 	for i, typ := range types {
-		sp = append(sp, chanmc.Space{Dev: -1, OnState: reestHere, P: chanmc.Params{Type: typ, OpenerB: i%2 == 1, MaxCuts: 2, CutOnlyInSync: true, NoDLP: i%2 == 0, ProbeLiveReest: true, ReestMonitor: true, Script: []chanmc.Intent{
+		sp = append(sp, chanmc.Space{Dev: -1, OnState: reestHere, P: chanmc.Params{Type: typ, OpenerB: i%2 == 1, MaxCuts: 2, CutOnlyInSync: true, NoDLP: i%2 == 0, ProbeLiveReest: true, ReestMonitor: true, ByzRevocation: run.Thorough(), Script: []chanmc.Intent{
 			{By: 0, Amt: 50_000_000, Fate: "settle"}, {By: 1, Amt: 60_000_001, Fate: "settle"},
 		}}})
 	}
 	agg := chanmc.RunSpaces(run, sp, time.Now().Add(budget), 0)
 	cov := agg.Coverage("release rule monitored on every revoke_and_ack returned in every transition of the explored two-peer schedules with up to two reconnects; every channel_reestablish (at each reconnect and, read-only, for both parties in every distinct state) judged field by field against the producers and the durable heights; distinct_nontrivial = distinct canonical states; see oracle_counts.revocations_checked and oracle_counts.reestablish_*")
+	// Byzantine-revocation probe (engine/chanmc/byz.go): per-cell counts make an
+	// empty (type x height parity) cell visible.
+	if oc, ok := cov["oracle_counts"].(map[string]any); ok {
+		oc["byz_revocation_probes"] = chanmc.Byz.Probes.Load()
+		oc["byz_wrong_revocations_delivered"] = chanmc.Byz.Variants.Load()
+		oc["byz_wrong_revocations_refused_without_state_change"] = chanmc.Byz.Refused.Load()
+		oc["byz_refused_but_in_memory_store_took_the_secret"] = chanmc.Byz.MemStoreDirty.Load()
+		oc["byz_honest_accepted_after_lattice"] = chanmc.Byz.HonestAccepted.Load()
+		oc["byz_secrets_reread_from_disk"] = chanmc.Byz.SecretsReread.Load()
+		oc["byz_probes_per_cell"] = chanmc.Byz.Cells()
+	}
 	if code := run.Finish(cov); code != 0 {
 		os.Exit(code)
 	}
